@@ -90,8 +90,8 @@ pub fn profile(name: &str) -> Profile {
         "C03" => Profile { name: "C03", kinds: [10, 0, 1, 2, 0, 0, 0, 0, 0], w_cause: 12, err_returns: true, ..base },
         "C04" => Profile { name: "C04", kinds: [1, 10, 1, 1, 0, 0, 0, 0, 0], w_cause: 14, err_returns: true, ..base },
         "C05" => Profile { name: "C05", scripted_faults: true, kinds: [2, 1, 10, 1, 0, 0, 0, 2, 0], w_advance: 6, err_returns: true, ..base },
-        "C06" => Profile { name: "C06", w_token: 9, w_insert: 7, reuse_bias: 3, err_returns: true, ..base },
-        "C07" => Profile { name: "C07", w_token: 10, err_returns: true, scripted_faults: true, kinds: [3, 3, 3, 3, 3, 1, 1, 0, 1], ..base },
+        "C06" => Profile { name: "C06", w_token: 9, w_insert: 7, reuse_bias: 3, signals: 1, err_returns: true, ..base },
+        "C07" => Profile { name: "C07", w_token: 10, err_returns: true, scripted_faults: true, signals: 2, kinds: [3, 3, 3, 3, 3, 1, 1, 0, 1], ..base },
         "C08" => Profile { name: "C08", kinds: [3, 3, 3, 3, 1, 3, 1, 0, 0], adapters: 3, script_len: (1, 5), script_ops: (1, 6), w_idle: 4, ..base },
         "C09" => Profile { name: "C09", kinds: [2, 1, 2, 8, 0, 0, 0, 0, 0], err_returns: true, script_len: (1, 5), ..base },
         "C10" => Profile { name: "C10", kinds: [1, 1, 1, 0, 0, 8, 5, 0, 0], w_cause: 14, ..base },
@@ -99,7 +99,7 @@ pub fn profile(name: &str) -> Profile {
         "C18" => Profile { name: "C18", kinds: [1, 0, 1, 1, 0, 0, 0, 0, 10], w_token: 9, w_cause: 10, ..base },
         "C17" => Profile { name: "C17", faults: true, kinds: [1, 0, 1, 2, 0, 8, 0, 0, 0], adapters: 12, w_cause: 10, max_sources: 5, natural_faults: true, err_returns: true, ..base },
         "C11" => Profile { name: "C11", kinds: [3, 2, 3, 2, 0, 1, 0, 0, 0], w_dispatch: 12, w_misc: 5, run_bias: 5, ..base },
-        "C12" => Profile { name: "C12", scripted_faults: true, kinds: [2, 1, 8, 1, 0, 0, 0, 0, 0], w_dispatch: 10, w_advance: 5, w_cause: 3, ..base },
+        "C12" => Profile { name: "C12", scripted_faults: true, kinds: [2, 1, 8, 1, 2, 0, 0, 0, 0], w_dispatch: 10, w_advance: 5, w_cause: 3, ..base },
         "C13" => Profile { name: "C13", w_idle: 10, err_returns: true, ..base },
         "C15" => Profile { name: "C15", adapters: 3, faults: false, scripted_faults: true, natural_faults: true, err_returns: true, kinds: [3, 2, 3, 6, 0, 0, 0, 0, 0], ..base },
         "C14" => Profile { name: "C14", kinds: [2, 1, 2, 2, 8, 0, 0, 0, 0], w_token: 9, w_misc: 4, faults: true, scripted_faults: true, err_returns: true, ..base },
@@ -431,7 +431,10 @@ impl G {
                 7 if self.sw.peers => Op::PeerRead(id, self.rng.range(1, 8192) as u32),
                 8 if self.sw.peers => Op::FillOut(id),
                 9 if self.sw.peers => Op::PeerClose(id),
-                10 if keep && self.p.modes => Op::GenericSet(id, self.rng.below(4) as u8, self.rng.below(3) as u8),
+                10 if keep && self.p.modes => Op::GenericSet(id, self.rng.below(4) as u8, if self.rng.chance(1, 2) { 9 } else { self.rng.below(3) as u8 }),
+                // interests going back and forth around disable/enable (C09: what the poller holds
+                // is what the last applied update asked for)
+                9 | 11 if keep && self.p.modes && self.p.name == "C09" => Op::GenericSet(id, *self.rng.pick(&[1u8, 1, 3, 2]), 9),
                 _ => Op::PeerWrite(id, 1),
             },
             _ => return crate::gen2::cause_op2(self, id, k),
@@ -485,7 +488,7 @@ impl G {
                 let keep_rejected = self.rng.chance(2, 3);
                 let sock = self.rng.chance(1, 3);
                 let synth_on_sock = sock && self.rng.chance(2, 3);
-                Op::InsertLifecycle { id, with_ping, with_timer: None, synth, script, two, fail_step2, keep_rejected, sock, synth_on_sock, forgetful: self.rng.chance(1, 3) }
+                Op::InsertLifecycle { id, with_ping, with_timer: None, synth, script, two, fail_step2, keep_rejected, sock, synth_on_sock, forgetful: self.rng.chance(1, 3), slow: if self.rng.chance(1, 4) { *self.rng.pick(&[1u64, 5, 50]) * MS } else { 0 } }
             }
             KindTag::Generic => {
                 let mut fd = match self.rng.below(6) {
@@ -579,6 +582,20 @@ impl G {
                 v.extend(life.iter().enumerate().map(|(i, id)| if Some(i) == removed { Op::Remove(*id) } else { Op::Disable(*id) }));
                 v.push(Op::Dispatch(Timeout::Zero));
                 return v;
+            }
+        }
+        if p.modes && p.kinds[3] >= 3 && self.rng.chance(1, 30) {
+            // an fd source whose interest goes back and forth across a disable/enable gap: what
+            // the poller holds afterwards has to be what was asked for last, whatever had been
+            // applied before the gap
+            let gens: Vec<Id> = self.srcs.iter().filter(|s| s.1 == KindTag::Generic && s.2).map(|s| s.0).collect();
+            if !gens.is_empty() {
+                let id = *self.rng.pick(&gens);
+                let a = *self.rng.pick(&[1u8, 3, 2]);
+                let b = *self.rng.pick(&[1u8, 3, 2, 0]);
+                let mode = if self.rng.chance(3, 4) { 9 } else { self.rng.below(3) as u8 };
+                let seq = vec![Op::GenericSet(id, a, mode), Op::Disable(id), Op::GenericSet(id, b, 9), Op::Enable(id), Op::GenericSet(id, a, 9), Op::PeerWrite(id, 1), Op::Dispatch(Timeout::Zero)];
+                return seq.into_iter().filter(|_| !self.rng.chance(1, 6)).collect();
             }
         }
         match self.rng.weighted(&w) {
